@@ -58,10 +58,13 @@ TRIVIA = {
     "cm_nonatomic": (("cin", "!", ("seq", (S("a"), ("opt", S("a"))))), ("COMMENT", "_", ("seq", (S("#"), R("cin"), S("!"))))),
     # an implicit rule that changes the stack before it can fail: a failed attempt must leave the stack alone
     "cm_stack": (("WHITESPACE", "_", S(" ")), ("COMMENT", "_", ("seq", (("push", S("#")), S("!"), ("drop",))))),
+    # implicit whitespace that is a compound-atomic / a non-atomic rule (its own pair is visible even inside an atomic caller)
+    "ws_compound": (("WHITESPACE", "$", S(" ")),),
+    "ws_nonatomic": (("WHITESPACE", "!", S(" ")),),
     "cm_pred": (("COMMENT", "_", ("seq", (S("#"), ("star", ("grp", ("seq", (("not", ("grp", ("alt", (S("!"), R("EOI"))))), R("ANY")))))))),),
 }
 TRIVIA_SIGMA = {
-    "none": "", "ws": " ", "ws_loud": " ", "cm2": "#!", "both": " #!", "ws_choice": " \t", "cm1": "#", "both_loud": " #", "ws_overlap": "", "cm_pred": "#!", "ws_pairs": " .", "both_overlap": " #", "cm_nonatomic": "#!", "cm_stack": " #!",
+    "none": "", "ws": " ", "ws_loud": " ", "cm2": "#!", "both": " #!", "ws_choice": " \t", "cm1": "#", "both_loud": " #", "ws_overlap": "", "cm_pred": "#!", "ws_pairs": " .", "both_overlap": " #", "cm_nonatomic": "#!", "cm_stack": " #!", "ws_compound": " ", "ws_nonatomic": " ",
 }
 
 
@@ -304,6 +307,31 @@ def extra_specs(kmode: str = "zero", tier: str = "quick"):
                         starts.append(((), (mod, body)))
         sigma = SIGMA_CORE + TRIVIA_SIGMA[tv]
         out.extend(batch_specs(starts, TRIVIA[tv] + HELPERS, inputs(sigma, (4 if tv == "none" else 3) - cut), kmode, f"counts({tv})"))
+    # (4) repetitions whose operand matches WITHOUT consuming input and still terminate (DROP on a finite stack), under implicit whitespace:
+    #     an iteration that ends where it began - at offset 0 in particular - followed by trivia that has to be given back
+    pre = (("pushlit", "a"), ("pushlit", "b"))
+    zw = (("drop",), ("grp", ("seq", (("and", ("drop",)), ("pop",)))), ("grp", ("seq", (("drop",), ("opt", S("a"))))))
+    zstarts = []
+    for e in zw:
+        for u in (("star",), ("plus",), ("min", 1), ("opt",), ("max", 2)):
+            rep = (u[0], e) + tuple(u[1:])
+            for tail in ((), (S("b"),), (("peekall",),), (("star", S("a")),)):
+                for m in ("", "!", "@"):
+                    zstarts.append(((), (m, ("seq", pre + (rep,) + tail))))
+                    zstarts.append(((), (m, ("seq", (("pushlit", "b"), rep) + tail))))
+    out.extend(batch_specs(zstarts, TRIVIA["ws"] + HELPERS, inputs("ab ", 3 if kmode == "all" else 4), kmode, "zero-width-repetition(ws)"))
+    # (5) postfix operators chained on a counted repetition without parentheses: e{2}+ is (e{2})+, never e{2,}
+    chains = []
+    for e in (S("a"), R("n")):
+        for f1 in (("exact", 2), ("minmax", 1, 2), ("min", 2), ("max", 2), ("plus",), ("opt",)):
+            for f2 in (("plus",), ("star",), ("opt",), ("exact", 2), ("minmax", 1, 2), ("max", 2), ("min", 1)):
+                inner = (f1[0], e) + tuple(f1[1:])
+                if f2[0] in ("star", "plus", "exact", "min", "minmax", "max") and f1[0] in ("opt", "max"):
+                    continue  # a repetition over something that matches empty
+                outer = (f2[0], ("bare", inner)) + tuple(f2[1:])      # printed without parentheses: e{2}+
+                for body in (outer, ("seq", (outer, R("EOI"))), ("seq", (outer, S("a")))):
+                    chains.append(((), ("", body)))
+    out.extend(batch_specs(chains, HELPERS, inputs("ab", 7 - cut), kmode, "postfix-chains"))
     # (3) empty (reversed) ranges, alone and in choices made only of them, under every operator (they never match: a repetition over them ends at once)
     er = (("range", "b", "a"), ("grp", ("alt", (("range", "b", "a"), ("range", "z", "y")))), ("grp", ("alt", (("range", "b", "a"), ("range", "z", "y"), ("range", "9", "0")))), S("a"))
     ebodies = gast.exprs_upto(3, er, gast.U_CORE, ("seq", "alt"), gast.Env(HELPERS))
@@ -384,7 +412,7 @@ def explicit_trivia_specs(kmode: str = "zero", tier: str = "quick"):
     """WHITESPACE / COMMENT named explicitly in rule bodies while they are also implicit and NOT silent: their pairs are subject to the
     caller's atomicity like any other rule's, their bodies are atomic by name."""
     out = []
-    for tv, sigma, L in (("ws_loud", "a ", 4), ("both_loud", "a #", 3 if (tier == "quick" or kmode == "all") else 4)):
+    for tv, sigma, L in (("ws_loud", "a ", 4), ("both_loud", "a #", 3 if (tier == "quick" or kmode == "all") else 4), ("ws_compound", "a ", 4), ("ws_nonatomic", "a ", 4)):
         names = tuple(R(r[0]) for r in TRIVIA[tv])
         env = gast.Env(HELPERS + TRIVIA[tv])
         bodies = gast.exprs_upto(3, (S("a"),) + names, U_CORE_SMALL, ("seq", "alt"), env)
@@ -456,7 +484,7 @@ def recursive_specs(kmode: str = "zero", tier: str = "quick", stack: bool = Fals
                     starts = [(f"t{k}_{tn}", "", ("seq", (mk(),) + tail)) for tn, mk in tops.items()]
                     rules = TRIVIA[tv] + HELPERS + (("a", "", body),) + tuple(starts)
                     sigma = "()x," + ("a" if not stack else "") + TRIVIA_SIGMA[tv]
-                    L = (6 if tier == "quick" else 7) - (1 if len(sigma) > 5 else 0)
+                    L = (5 if tier == "quick" else 7) - (1 if len(sigma) > 5 else 0)
                     out.append(Spec(rules, [x[0] for x in starts], inputs_pruned(sigma, L), kmode, f"recursive({rname},{place},{tv})"))
                     k += 1
     return out
@@ -471,7 +499,7 @@ def inputs_pruned(sigma: str, L: int):
 
 
 RECURSIVE_RULE_TEXT = ("; plus recursive grammars: a = { \"(\" ~ [op] ~ REC ~ [op] ~ \")\" } with REC in {(a ~ \",\")* ~ a?, a?, a*, (a ~ \",\" | a | \"\")} and op (a rule reference / a stack operation) before, after or on both sides of the "
-                       "recursive part, called as a*, a, a?, a ~ a? and in an abandoned alternative, on every input over {( ) x ,} (+ a / trivia) up to length 6 that starts with \"(\"")
+                       "recursive part, called as a*, a, a?, a ~ a? and in an abandoned alternative, on every input over {( ) x ,} (+ a / trivia) up to length 5 (thorough 7) that starts with \"(\"")
 
 
 def metachar_specs(kmode: str = "zero", tier: str = "quick"):
@@ -498,14 +526,15 @@ def metachar_specs(kmode: str = "zero", tier: str = "quick"):
 META_RULE_TEXT = ("; plus metachar-literals: choices of two literals, a literal next to a range, case-insensitive literals, skip-idiom stops, repeated choices, PUSH_LITERAL(l) ~ POP and PUSH(l) ~ PEEK ~ PEEK_ALL built from 35 literals made of regular-expression metacharacters "
                   "(. + [ ] \\ | ( ) ^ $ { ? * - # & ~, blank), a non-BMP character, a combining sequence and its precomposed form, on the literals themselves, doubled, and next to ordinary letters")
 U_CORE_SMALL = (("grp",), ("opt",), ("star",), ("plus",), ("and",), ("not",))
-EXPLICIT_RULE_TEXT = "; plus explicit-loud-trivia: every expression with <= 3 nodes over {\"a\", WHITESPACE, COMMENT} with ( ) ? * + & ! ~ | as the body of a normal / @ / $ / ! rule, where WHITESPACE (and COMMENT) are non-silent implicit rules"
+EXPLICIT_RULE_TEXT = "; plus explicit-loud-trivia: every expression with <= 3 nodes over {\"a\", WHITESPACE, COMMENT} with ( ) ? * + & ! ~ | as the body of a normal / @ / $ / ! rule, where WHITESPACE (and COMMENT) are non-silent implicit rules - normal, compound-atomic ($) and non-atomic (!)"
 
 SKIP_RULE_TEXT = ("; plus skip shapes: (!stop ~ ANY)* with stop in {\"b\", (\"b\"|\"ab\"), \"bb\", ^\"b\", ^\"ab\", n, (\"a\" ~ \"b\"), a ! rule and an @ rule holding \"a\" ~ \"b\"} in eleven templates (alone, before a terminator, repeated, twice in one sequence, "
                   "re-evaluated after backtracking, through a rule called twice, under & and ?), under the rule modifiers normal / @ / ! (C04 and thorough: all five), with trivia none / WHITESPACE (C04 and thorough: also a one-character COMMENT), "
                   "inputs over {a,b,B}+trivia up to length 4 (3 with trivia or with every start position)")
 
 EXTRA_RULE_TEXT = ("; plus (c) counts: every bound {m} {m,} {,n} {m,n} with counts 0..3 (zero counts included) over \"a\", n and (\"ab\"|\"a\"), alone / before \"a\" / before EOI / in an abandoned alternative, normal and atomic, without and with implicit whitespace; "
-                   "(c2) empty-ranges: every expression with <= 3 nodes over {'b'..'a', ('b'..'a' | 'z'..'y'), ('b'..'a' | 'z'..'y' | '9'..'0'), \"a\"}; (d) newline: every expression with <= 2 nodes over {NEWLINE, \"a\", \"\\n\", ANY} on every string over {a, \\r, \\n} up to length 4, also with WHITESPACE = _{ NEWLINE | \" \" }")
+                   "(c3) zero-width repetitions: DROP, (&DROP ~ POP), (DROP ~ \"a\"?) under * + {1,} ? {,2} after one or two PUSH_LITERALs, followed by nothing / \"b\" / PEEK_ALL / \"a\"*, under implicit whitespace, in normal, ! and @ rules; "
+                   "(c4) postfix chains: every counted or plain repetition of \"a\" / n followed directly by a second postfix operator (e{2}+, e{1,2}*, e+{2} ...), inputs over {a,b} up to length 7; (c2) empty-ranges: every expression with <= 3 nodes over {'b'..'a', ('b'..'a' | 'z'..'y'), ('b'..'a' | 'z'..'y' | '9'..'0'), \"a\"}; (d) newline: every expression with <= 2 nodes over {NEWLINE, \"a\", \"\\n\", ANY} on every string over {a, \\r, \\n} up to length 4, also with WHITESPACE = _{ NEWLINE | \" \" }")
 
 
 def c01_rule_text():
